@@ -63,7 +63,8 @@ def mofun_cli(inputpath, outputpath,
     # replicate to meet minimum image convention, if necessary
     if mic is not None:
         if atoms.cell_is_orthorhombic():
-            repls = np.array(np.ceil(2*mic / np.diag(atoms.cell)), dtype=int)
+            # at least one copy in every direction: a cutoff of zero (or below) needs no replication
+            repls = np.maximum(1, np.array(np.ceil(2*mic / np.diag(atoms.cell)), dtype=int))
             atoms = atoms.replicate(repls)
         else:
             print ("WARNING: Minimimum image convention is only implemented for orthorhombic structures, please use --replicate")
